@@ -275,7 +275,11 @@ def resolve(node, source, context_filepath, context_lineno, context_col_offset):
 def resolve_entity(node, source, entity):
   """Like resolve, but extracts the context information from an entity."""
   # (dime10) replacement for tf_inspect.getsourcelines and tf_inspect.getsourcefile
-  lines, lineno = inspect.getsourcelines(entity)
+  # Note: inspect.getsourcelines follows __wrapped__, whereas the source that was
+  # parsed (see inspect_utils.getimmediatesource) is that of the entity itself.
+  all_lines, lnum = inspect.findsource(entity)
+  lines = inspect.getblock(all_lines[lnum:])
+  lineno = lnum + 1
   filepath = inspect.getsourcefile(entity)
 
   # Poor man's attempt at guessing the column offset: count the leading
